@@ -155,7 +155,8 @@ TEMPLATES = {
            "  type, extends(tt), abstract :: t2\n    integer, allocatable :: d(:)\n  contains\n    procedure(ai), deferred, pass(self) :: dm\n    generic :: g => pb, dm\n    final :: impl\n  end type t2",
            "  enum, bind(c)\n    enumerator :: e1 = 1, e2\n  end enum", "  use iso_c_binding, only: c_int, ci => c_long", "  external :: ext1", "  double precision :: dp", "  integer :: v1, v2(3), v3 = 4",
            "  common /blk/ v1", "  equivalence (v1, v2)", "  namelist /nl/ v1", "  data v1 /1/", "  include 'inc.f90'", "  integer(kind=selected_int_kind(5)) :: k5", "  type(tt) :: ob = tt(1)",
-           "  character(len=3), dimension(2) :: cs*4", "  integer, dimension(3) :: da, db(5)", "  procedure, pass(self) :: foo", "  module procedure impl", "  import, only: tt"],
+           "  character(len=3), dimension(2) :: cs*4", "  integer, dimension(3) :: da, db(5)", "  procedure, pass(self) :: foo", "  module procedure impl", "  import, only: tt",
+           "  type :: t3\n    integer :: c3\n  contains\n    procedure, pass(self) :: arr\n    procedure, pass(me) :: b3 => arr\n    procedure :: p3 => impl\n  end type t3"],
     "SP": ["    integer, intent(in), optional :: a2", "    real, dimension(:,:), allocatable, target :: m2", "    character(len=:), allocatable :: cs", "    type(tt), intent(inout) :: o2",
            "    use iso_fortran_env, only: i4 => int32", "    implicit none", "    integer, value :: vv", "    procedure(impl) :: dummy_proc", "    class(*), pointer :: up", "    real*8 x8"],
     "EX": ["    associate (x => y, z => o%c)\n      y = x\n    end associate", "    select type (s => q)\n    type is (tt)\n      y = 1\n    class is (tt)\n    class default\n    end select",
